@@ -400,6 +400,9 @@ def main(argv=None):
                     native_results[n['bin']] = (n, r)
                     log('[native] bounded  %-40s %-9s %.1fs cases=%d' % (n['bin'], r.status, r.time_s, r.cases))
                     for (tag, text) in r.findings:
+                        mt = re.match(r'(C\d{2,3})\b', tag)
+                        if mt and mt.group(1) != pid:
+                            continue        # a recorded deviation of another property's clause
                         ob = 'native.%s.%s' % (n['bin'], tag)
                         payload = {'property_id': pid, 'obligation': ob, 'violation': True,
                                    'verifier_output': 'bounded stand-in %s reports a concrete deviation from the property text:\n%s' % (n['bin'], text),
